@@ -1091,7 +1091,7 @@ class C02(EvalProp):
     trusted = TRUSTED_PARSE
     rule = ('strings <= 256 bytes: grammar-derived paths (respelled), character-level mutations of them and of the '
             'suite paths (read from test_jsonpath_test.go at run time), token soup, arbitrary Unicode, invalid UTF-8; '
-            'four configurations; thorough adds the bounded-exhaustive reduced grammar (all operand x operator x '
+            'four configurations, plus names registered as both kinds of function and functions under names no path can spell; thorough adds the bounded-exhaustive reduced grammar (all operand x operator x '
             'operand comparisons, all step sequences up to length 3). Each case runs in a worker process with a time '
             'limit. Non-trivial: the string is not rejected at offset 0 (distinct strings counted)')
 
@@ -1116,6 +1116,25 @@ class C02(EvalProp):
         for i, t in enumerate(lim):
             for j, tpl in enumerate(['$.a[%s]', '$..[%s]', '$.a[0,%s]', '$.a[%s:]', '$.a[:%s]', '$.a[::%s]', '$.a[*][%s]', '$..a[%s,1]']):
                 cs.append(Case('lim%d_%d' % (i, j), (tpl % t).encode(), [self.RETRIEVE_DOC], meta={'kind': 'int64-limits'}))
+        # configurations out of the ordinary: one name registered BOTH as a filter function and as an aggregate function (the path
+        # is accepted: the filter function is meant), and functions registered under names no path can spell (an empty name, blanks,
+        # dots, parentheses, non-ASCII letters) — Parse of any string, valid or not, still returns one of its documented outcomes
+        r = g.r
+        probes = [b'$', b'$.a', b'$.a.twice()', b'$.a.cnt()', b'$.*.id().amax()', b'$[?(@.b.cnt() == 1)]', b'$[?(@.a.twice())]', b'$.a.first().first()',
+                  b'$.a.nosuch()', b'$.a.()', b'$.a. ()', b'$.a.a.b()', b'$.a.f()()', b'$[', b'', b'$.a.twice(', b'$.a.\xc3\xa9()', b'a.cnt()', b' $.a.amax() ']
+        for i in range(max(24, n // 400)):
+            both = r.sample(['cnt', 'amax', 'first', 'twice', 'id', 'wrap'], r.randint(1, 3))
+            path = r.choice(probes[:9] + [b'$.a.%s()' % nm.encode() for nm in both] + [b'$[?(@.a.%s() == 1)]' % both[0].encode(), b'$.*.%s().%s()' % (both[0].encode(), both[-1].encode())])
+            cs.append(Case('dual%d' % i, path, [self.RETRIEVE_DOC], sorted(set(gens.FILTER_FUNCS + both)), sorted(set(gens.AGG_FUNCS + both)), r.random() < 0.2, False, 'eval',
+                           meta={'kind': 'name-registered-twice'}))
+        odd = ['', ' ', 'a b', 'a.b', '.', 'f()', '()', '\u00e9', 'a,b', "a'b", '$', '@', '*', 'x\n', '-', '_', '0']
+        for i in range(max(24, n // 400)):
+            fo, ao = r.sample(odd, r.randint(0, 3)), r.sample(odd, r.randint(0, 2))
+            if not fo and not ao:
+                fo = [r.choice(odd[:9])]
+            path = r.choice(probes)
+            cs.append(Case('odd%d' % i, path, [self.RETRIEVE_DOC], sorted(set(['twice', 'id'] + fo)), sorted(set(['cnt', 'amax'] + ao)), r.random() < 0.2, False, 'eval',
+                           meta={'kind': 'unspellable-function-names'}))
         return cs
 
     def project(self, o, c):
@@ -1588,7 +1607,8 @@ class C05(Prop):
     rule = ('one parsed function called on a history of <= 8 documents (variants of one document so that consecutive '
             'calls flip filter outcomes and failures), interleaved with unrelated Retrieve calls that recycle the pooled '
             'buffers; every call is compared with a fresh Retrieve of the same path on that document and with the model; '
-            'earlier result slices are re-read at the end; the package-level lists are read at the end. Non-trivial: >= 2 '
+            'earlier result slices are re-read at the end; the package-level lists are read at the end; histories in which a user function '
+            'panics inside a filter operand (the runner recovers) before ordinary calls. Non-trivial: >= 2 '
             'distinct outcomes inside one history')
     trusted = TRUSTED_EVAL + ['identity of returned Go slices (aliasing with recycled buffers) is observed dynamically only']
 
@@ -3242,8 +3262,8 @@ class C13(Prop):
     rule = ('accessor mode, documents with pairwise distinct leaves: for every accessor index i a unique sentinel is Set '
             'on a fresh copy of the document, the document is searched for it (exactly one location, everything else '
             'unchanged, Get returns it afterwards) and the location is compared with the one the model predicts; Set must be '
-            'nil exactly for the root and for function outputs; Set stores the very object given (identity: a later change of it '
-            'shows through Get, an object stored before is left alone, read-modify-write and wrapping the current value keep it). '
+            'nil exactly for the root (also for the bare path `$`) and for function outputs; Set stores the very object given (identity: a later change of it '
+            'shows through Get, an object stored before is left alone, read-modify-write and wrapping the current value keep it; an Accessor given to Set is stored as it is). '
             'Non-trivial: >= 2 accessors on a document of depth >= 2')
     trusted = TRUSTED_EVAL + ['documents are trees (no sub-map or sub-slice reachable twice)',
                               'members of a function output are outside the property (DESIGN §6 C13)']
@@ -3623,7 +3643,8 @@ class C15(Prop):
     id = 'C15'
     rule = ('failing (path, document) pairs from the C01 generators: error type, path text, expected and found compared '
             'exactly with the model (which keeps the connected-text ranking); for single-valued name/index paths the '
-            'error must be the first failing step with the right kind, computed independently in the harness. '
+            'error must be the first failing step with the right kind, computed independently in the harness; a user filter function '
+            'that panics around an aggregate must reach the caller as a panic, not as an error of another step. '
             'Non-trivial: the retrieval fails on a path of >= 2 steps')
     trusted = TRUSTED_EVAL
 
@@ -3808,7 +3829,7 @@ class C16(Prop):
             "among near-miss sibling keys: the spellings ['k'], [\"k\"] (JSON-style escaping) and, for non-empty control-free "
             'keys, .k with every symbol backslash-escaped must return exactly that member, in five positions (root, after a '
             'name, after .., inside a filter operand, inside a multi-name selector); expected value by direct map lookup in '
-            'the harness, and compared with the model. Non-trivial: the key needs escaping in some spelling')
+            'the harness, and compared with the model; multi-name selectors of 65..128 names. Non-trivial: the key needs escaping in some spelling')
     trusted = TRUSTED_PARSE + ['encoding/json string unquoting is modelled concretely in coq/Text.v']
 
     def run(self, ctx, res, budget_scale=1, seed_offset=0):
@@ -4213,7 +4234,7 @@ class C19(Prop):
     rule = ('histories of <= 10 Parse/Retrieve calls in one process mixing valid paths, paths failing at every kind of '
             'action (bad number, unknown function, script, value-group comparison, two current nodes, bad regex, bad escape, '
             'trailing garbage — also while a filter operand is half built), configs with different function sets / accessor '
-            'mode / no config, and configs modified after Parse; the same quoted text met twice (a single-quoted name the decoder '
+            'mode / no config, configs modified after Parse, and copies of a Config that get a function of the other kind; the same quoted text met twice (a single-quoted name the decoder '
             'rejects; one backslash-letter text as a filter literal and as a double-quoted name); every outcome is compared with the same call made alone '
             'in a fresh history and with the model (a pure function of path and config); the parser action state is read '
             'after every call through the verif hook. Non-trivial: a failing Parse is followed by a Parse with another or no config')
